@@ -345,7 +345,7 @@ _sf("C14", "recording", ["mixed"],
     "must not decrease; the time-weighted mean of a single recording window must equal the harness' own integral of the state.")
 
 _add_job("C12", J("exp-queues-in-concurrent-trials", "expcheck", "rel", 2, 24, 3000, timeout=300, chunk=2, claim="C12/concurrent-trials/"))
-_add_job("C12", J("pq-2^31-objects-through-one-queue", "expcheck", "rel", 6, 3, 12, timeout=3600, chunk=1))
+_add_job("C12", J("pq-2^31-objects-through-one-queue", "expcheck", "rel", 6, 5, 16, timeout=3600, chunk=1))
 _add_job("C12", J("exp-queues-in-concurrent-trials-tsan", "expcheck", "tsan", 2, 4, 100, timeout=600, chunk=1, claim="C12/concurrent-trials/"))
 _add_job("C01", J("exp-event-queues-in-concurrent-trials", "expcheck", "rel", 4, 24, 2000, timeout=300, chunk=2, claim="C01/concurrent-trials/"))
 _add_job("C01", J("exp-event-queues-in-concurrent-trials-tsan", "expcheck", "tsan", 4, 4, 100, timeout=600, chunk=1, claim="C01/concurrent-trials/"))
@@ -358,6 +358,7 @@ _add_job("C20", J("exp-static-pools-in-concurrent-trials-tsan", "expcheck", "tsa
 _add_job("C17", J("exp-weighted-statistics-in-concurrent-trials", "expcheck", "rel", 3, 24, 3000, timeout=300, chunk=2, claim="C17/concurrent-trials/"))
 _add_job("C17", J("exp-weighted-statistics-in-concurrent-trials-tsan", "expcheck", "tsan", 3, 4, 100, timeout=600, chunk=1, claim="C17/concurrent-trials/"))
 _add_job("C09", J("sf-directed-reaped-jobs", "simfuzz", "rel", 107, 90, 900))
+_add_job("C05", J("sf-directed-objects-that-go-away", "simfuzz", "rel", 108, 48, 240))
 _add_job("C04", J("sf-directed-clear-and-continue", "simfuzz", "rel", 104, 480, 4800))
 _add_job("C04", J("sf-directed-same-instant-restart", "simfuzz", "rel", 106, 1344, 2688))
 _add_job("C09", J("sf-directed-clear-and-continue", "simfuzz", "rel", 104, 480, 4800))
